@@ -122,6 +122,11 @@ def main(prop, tier='quick', seed=0, replay=None):
         broken = [t for t, v in audit.items() if not v['ok']]
     discharged = sum(1 for v in audit.values() if v['ok'])
     proof_ok = b['model_ok'] and b['proofs_ok'] and discharged == len(mod.THEOREMS) and not forbidden
+    if tier == 'thorough' and b['proofs_ok']:
+        ok, msg = leanio.leanchecker(mod.LEAN_MODULES)
+        ctx.notes.append(f'leanchecker on {mod.LEAN_MODULES}: ' + ('accepted' if ok else f'NOT accepted: {msg}'))
+        if ok is False:
+            proof_ok = False; broken = broken + ['leanchecker rejected ' + ' '.join(mod.LEAN_MODULES)]
 
     if not b['model_ok']:
         print('INFRA: the model library does not build:\n' + b['log'][-3000:])
